@@ -123,6 +123,103 @@ def _elementwise(kind):
 
 # ----------------------------------------------------------------------------- jnp functions
 
+def j_log1p(I, args, kw):
+    x = args[0]
+    if _I().is_num(x):
+        return _log_const(D(x) + 1)
+    return nf.elementwise("Log", nf.add(nf.const(1), _arr(x)))
+
+
+def j_expm1(I, args, kw):
+    return nf.add(nf.elementwise("Exp", _arr(args[0])), nf.const(-1))
+
+
+def j_square(I, args, kw):
+    return nf.mul(_arr(args[0]), _arr(args[0]))
+
+
+def j_negative(I, args, kw):
+    return nf.neg(_arr(args[0]))
+
+
+def j_add(I, args, kw):
+    return nf.add(_arr(args[0]), _arr(args[1]))
+
+
+def j_subtract(I, args, kw):
+    return nf.add(_arr(args[0]), _arr(args[1]), -1)
+
+
+def j_multiply(I, args, kw):
+    return array_binop(I, ast.Mult(), args[0], args[1])
+
+
+def j_divide(I, args, kw):
+    return array_binop(I, ast.Div(), args[0], args[1])
+
+
+def j_matmul(I, args, kw):
+    return array_binop(I, ast.MatMult(), args[0], args[1])
+
+
+def j_transpose(I, args, kw):
+    v = _arr(args[0])
+    axes = args[1] if len(args) > 1 else kw.get("axes")
+    if axes is None:
+        return nf.transpose(v)
+    axes = [nf._norm_axis(_int(a), len(v.axes)) for a in axes]
+    return Val([v.axes[a] for a in axes], v.terms, kind=v.kind)
+
+
+def j_expand_dims(I, args, kw):
+    v = _arr(args[0])
+    ax = _int(_axis(kw, args, 1))
+    nd = len(v.axes) + 1
+    ax = ax + nd if ax < 0 else ax
+    return Val(v.axes[:ax] + [()] + v.axes[ax:], v.terms, kind=v.kind)
+
+
+def j_broadcast_to(I, args, kw):
+    v = _arr(args[0])
+    shp = _shape_arg(args[1] if len(args) > 1 else kw["shape"])
+    if len(shp) < len(v.axes):
+        raise ShapeError("broadcast_to: target rank smaller than operand rank")
+    v = Val([()] * (len(shp) - len(v.axes)) + list(v.axes), v.terms, kind=v.kind)
+    reps = []
+    for a, t in zip(v.axes, shp):
+        if not a and not D(t).is_one():
+            reps.append(D(t))
+        elif nf.axsize(a) == D(t):
+            reps.append(D(1))
+        else:
+            raise ShapeError(f"broadcast_to: cannot broadcast size {nf.axsize(a)} to {t}")
+    return nf.tile(v, reps)
+
+
+def j_zeros_like(I, args, kw):
+    v = _arr(args[0])
+    return Val(v.axes, [])
+
+
+def j_ones_like(I, args, kw):
+    v = _arr(args[0])
+    return Val(v.axes, [(D(1), nf.Net())])
+
+
+def j_repeat(I, args, kw):
+    v = _arr(args[0])
+    reps = args[1] if len(args) > 1 else kw["repeats"]
+    ax = _axis(kw, args, 2)
+    if ax is None:
+        raise Undecided("repeat without axis")
+    ax = nf._norm_axis(_int(ax), len(v.axes))
+    # repeat = each element repeated consecutively: new axis variable is MINOR to the existing ones
+    r = D(reps)
+    axes = list(v.axes)
+    axes[ax] = tuple(axes[ax]) + ((nf.fresh(r, "t"),) if not r.is_one() else ())
+    return Val(axes, v.terms, kind=v.kind)
+
+
 def j_einsum(I, args, kw):
     spec = args[0]
     if not isinstance(spec, str):
@@ -171,7 +268,7 @@ def _gather(v, ax, idx):
                 k = idx.values[0]
                 return nf.slice_axis(v, a, k, D(k) + 1)
             raise Undecided("constant index list of length > 1")
-        return nf.gather_axis(v, a, idx.name, idx.size)
+        return nf.gather_axis(v, a, idx.name, idx.size, perm=(idx.kind == "perm"))
     raise Undecided(f"gather with {type(idx).__name__}")
 
 
@@ -573,6 +670,11 @@ EXT = {
     "jax.numpy.cosh": _elementwise("Cosh"), "jax.numpy.tanh": _elementwise("Tanh"), "jax.numpy.abs": _elementwise("Abs"),
     "jax.numpy.round": _elementwise("Round"), "jax.numpy.sign": _elementwise("Sign"),
     "jax.numpy.cumsum": not_modelled("cumsum"),
+    "jax.numpy.log1p": j_log1p, "jax.numpy.expm1": j_expm1, "jax.numpy.square": j_square, "jax.numpy.negative": j_negative,
+    "jax.numpy.add": j_add, "jax.numpy.subtract": j_subtract, "jax.numpy.multiply": j_multiply, "jax.numpy.divide": j_divide,
+    "jax.numpy.matmul": j_matmul, "jax.numpy.transpose": j_transpose, "jax.numpy.expand_dims": j_expand_dims,
+    "jax.numpy.broadcast_to": j_broadcast_to, "jax.numpy.zeros_like": j_zeros_like, "jax.numpy.ones_like": j_ones_like,
+    "jax.numpy.repeat": j_repeat, "jax.numpy.asarray": j_array, "jax.numpy.float64": lambda I, a, k: a[0],
     "jax.numpy.linalg.slogdet": j_slogdet, "jax.numpy.linalg.cholesky": j_cholesky,
     "jax.scipy.linalg.cho_factor": j_cho_factor, "jax.scipy.linalg.cho_solve": j_cho_solve,
     "jax.random.normal": r_normal, "jax.random.PRNGKey": r_prngkey, "jax.random.key": r_prngkey,
@@ -633,7 +735,7 @@ def _at_set(I, proxy, value):
         raise Undecided(".at without index")
     it = _I()
     if any(k[0] == "idx" for k in key):
-        if len(key) == 1 and key[0][1].kind == "generic":
+        if len(key) == 1 and key[0][1].kind in ("generic", "perm"):
             return _scatter(I, base, key[0][1], value)
         raise Undecided("scatter with index arrays")
     slices = []
